@@ -1,6 +1,7 @@
 package logic
 
 import (
+	"fmt"
 	"reflect"
 
 	"github.com/spf13/cast"
@@ -10,6 +11,15 @@ import (
 	"github.com/bmeg/grip/jsonpath"
 	"github.com/bmeg/grip/log"
 )
+
+// toNumber converts numbers and numeric text; anything else, booleans included,
+// is not an operand of an ordering test
+func toNumber(i interface{}) (float64, error) {
+	if _, ok := i.(bool); ok {
+		return 0, fmt.Errorf("unable to cast %#v of type %T to float64", i, i)
+	}
+	return cast.ToFloat64E(i)
+}
 
 func MatchesCondition(trav gdbi.Traveler, cond *gripql.HasCondition) bool {
 	var val interface{}
@@ -25,44 +35,44 @@ func MatchesCondition(trav gdbi.Traveler, cond *gripql.HasCondition) bool {
 		return !reflect.DeepEqual(val, condVal)
 
 	case gripql.Condition_GT:
-		valN, err := cast.ToFloat64E(val)
+		valN, err := toNumber(val)
 		if err != nil {
 			return false
 		}
-		condN, err := cast.ToFloat64E(condVal)
+		condN, err := toNumber(condVal)
 		if err != nil {
 			return false
 		}
 		return valN > condN
 
 	case gripql.Condition_GTE:
-		valN, err := cast.ToFloat64E(val)
+		valN, err := toNumber(val)
 		if err != nil {
 			return false
 		}
-		condN, err := cast.ToFloat64E(condVal)
+		condN, err := toNumber(condVal)
 		if err != nil {
 			return false
 		}
 		return valN >= condN
 
 	case gripql.Condition_LT:
-		valN, err := cast.ToFloat64E(val)
+		valN, err := toNumber(val)
 		if err != nil {
 			return false
 		}
-		condN, err := cast.ToFloat64E(condVal)
+		condN, err := toNumber(condVal)
 		if err != nil {
 			return false
 		}
 		return valN < condN
 
 	case gripql.Condition_LTE:
-		valN, err := cast.ToFloat64E(val)
+		valN, err := toNumber(val)
 		if err != nil {
 			return false
 		}
-		condN, err := cast.ToFloat64E(condVal)
+		condN, err := toNumber(condVal)
 		if err != nil {
 			return false
 		}
@@ -78,17 +88,17 @@ func MatchesCondition(trav gdbi.Traveler, cond *gripql.HasCondition) bool {
 			log.Errorf("Error: expected slice of length 2 not %v for INSIDE condition value", len(vals))
 			return false
 		}
-		lower, err := cast.ToFloat64E(vals[0])
+		lower, err := toNumber(vals[0])
 		if err != nil {
 			log.Errorf("Error: could not cast lower INSIDE condition value: %v", err)
 			return false
 		}
-		upper, err := cast.ToFloat64E(vals[1])
+		upper, err := toNumber(vals[1])
 		if err != nil {
 			log.Errorf("Error: could not cast upper INSIDE condition value: %v", err)
 			return false
 		}
-		valF, err := cast.ToFloat64E(val)
+		valF, err := toNumber(val)
 		if err != nil {
 			log.Errorf("Error: could not cast INSIDE value: %v", err)
 			return false
@@ -105,17 +115,17 @@ func MatchesCondition(trav gdbi.Traveler, cond *gripql.HasCondition) bool {
 			log.Errorf("Error: expected slice of length 2 not %v for OUTSIDE condition value", len(vals))
 			return false
 		}
-		lower, err := cast.ToFloat64E(vals[0])
+		lower, err := toNumber(vals[0])
 		if err != nil {
 			log.Errorf("Error: could not cast lower OUTSIDE condition value: %v", err)
 			return false
 		}
-		upper, err := cast.ToFloat64E(vals[1])
+		upper, err := toNumber(vals[1])
 		if err != nil {
 			log.Errorf("Error: could not cast upper OUTSIDE condition value: %v", err)
 			return false
 		}
-		valF, err := cast.ToFloat64E(val)
+		valF, err := toNumber(val)
 		if err != nil {
 			log.Errorf("Error: could not cast OUTSIDE value: %v", err)
 			return false
@@ -132,17 +142,17 @@ func MatchesCondition(trav gdbi.Traveler, cond *gripql.HasCondition) bool {
 			log.Errorf("Error: expected slice of length 2 not %v for BETWEEN condition value", len(vals))
 			return false
 		}
-		lower, err := cast.ToFloat64E(vals[0])
+		lower, err := toNumber(vals[0])
 		if err != nil {
 			log.Errorf("Error: could not cast lower BETWEEN condition value: %v", err)
 			return false
 		}
-		upper, err := cast.ToFloat64E(vals[1])
+		upper, err := toNumber(vals[1])
 		if err != nil {
 			log.Errorf("Error: could not cast upper BETWEEN condition value: %v", err)
 			return false
 		}
-		valF, err := cast.ToFloat64E(val)
+		valF, err := toNumber(val)
 		if err != nil {
 			log.Errorf("Error: could not cast BETWEEN value: %v", err)
 			return false
